@@ -33,7 +33,7 @@ PROPS = {
         "trusted_base": ["Model/Diagonal.v transcription of diagonal.rs / heatbath.rs; rand 0.8.8 gen_range / gen_bool decoding in Model/Prog.v"],
     },
     "C12": {
-        "harness_cmd": "steps",
+        "harness_cmd": ["steps", "c10"],
         "oracle_props": ["C12"],
         "property_files": ["C12.v"],
         "expected_theorems": [
@@ -127,7 +127,7 @@ PROPS = {
         "trusted_base": ["Model/Steps.v, Model/Cluster.v, Model/Loop.v transcriptions validated by whole-call tape replay"],
     },
     "C07": {
-        "harness_cmd": ["steps", "rvb"],
+        "harness_cmd": ["steps", "rvb", "c15"],
         "oracle_props": ["C07"],
         "property_files": ["C07.v"],
         "expected_theorems": ["C07_sweep_structural_legality", "C07_inserted_ops_are_legal_terms", "C07_zero_weight_never_inserted_metropolis",
